@@ -30,7 +30,7 @@ lists and all generated texts:
   (every front-matter is closed).  Repaired by fix cdbfbca: a front-matter without lines gained an
   empty line (regression example `C10_front_matter_empty_kept`);
 * `C10_blocks_kept` – every rewritten block is `fence + language + {config}` as read from the old
-  fence line (white space after `{` dropped, a configuration of white space only is none), a prefix of the old body lines (the comment lines),
+  fence line (spaces and tabs after `{` dropped, a configuration of white space only is none), a prefix of the old body lines (the comment lines),
   the generated text, the fence, with a fence of at least three backticks; a block without code
   keeps all its lines and uses no outcome (`BlockOut`);
 * `C10_passing_verbatim` – if the generated text is the code of the block as written (which is
@@ -127,27 +127,27 @@ runs:
   it generates the same texts; `C10_run_idempotent_partial`: it does so – hence
   `update (update doc) = unchanged` – under the decidable guards `NoStrayCR`, exit codes 0..255, `QuantFree` (a test
   with `MalformedOutput` has no quantified expectation: the open finding
-  `C10:not-idempotent-retained-quantified-expectations`) and `CfgBlankLed` (below).  No hypothesis about the
+  `C10:not-idempotent-retained-quantified-expectations`).  No hypothesis about the
   WRITTEN document is left: the former hypothesis `SameConfigs` ("the written document is read -- it parses,
   its lines compile -- with the same test configurations") is discharged:
   - the written document parses (`C10_run_written_parses_partial`: tokens as in `Reread`, every rewritten block is
     the command lines, expectation lines that compile, at most one exit code line);
   - the tokenizer reads from the fence line `update` wrote exactly the configuration text `update` wrote
-    (`writtenCfg`: the original text without its leading white space, none if it was white space only:
+    (`writtenCfg`: the original text without its leading spaces and tabs, none if it was white space only:
     `C10_config_text_read_back`), and `Yaml.parseFlow` does not see spaces and tabs behind the opening brace
-    (`C10_flow_blanks_skipped`, for ALL texts, proved through the fuel of the flow parser);
+    (`C10_flow_blanks_skipped`, for ALL texts, proved through the fuel of the flow parser), so the configuration
+    read back is the original one (`C10_config_read_back`; a text of Unicode white space only, written back as
+    no configuration, is the empty mapping if it is read at all);
   - the guard `FrontClosed` follows from `… = .updated …` (`C10_run_front_closed`).
-  The statement WITHOUT `CfgBlankLed`
-
-      theorem C10_run_idempotent (… NoStrayCR, codes, QuantFree …) : ∃ rs, updateDocument isOther text runs = .unchanged rs
-
-  is **false** (`C10_run_idempotent_configs_fail_on_witness`, finding
-  `C10:config-leading-white-space-changes-configuration`, confirmed on the binary): `update` drops the white
-  space in front of the configuration text with `trim_start()` -- Unicode `White_Space` --, YAML skips spaces
-  and tabs only.  `{<U+00A0>output_stream: stderr}` holds the unknown key `<U+00A0>output_stream` (ignored: the
-  test validates STDOUT); it is written back as `{output_stream: stderr}`: the PASSING test `$ echo a; echo b >&2`
-  / `a` fails after the first update and is rewritten to `b` by the second.  `CfgBlankLed`: the white space
-  dropped in front of every inline configuration is spaces and tabs.
+  REPAIRED (fix 15b47d2; finding `C10:config-leading-white-space-changes-configuration`): the theorem carried the
+  guard `CfgBlankLed` ("the white space `update` drops in front of every inline configuration is spaces and
+  tabs") and was false without it, because `update` dropped that white space with `trim_start()` -- Unicode
+  `White_Space` -- while YAML skips spaces and tabs only: `{<U+00A0>output_stream: stderr}` holds the unknown
+  key `<U+00A0>output_stream` (ignored: the test validates STDOUT) and was written back as
+  `{output_stream: stderr}`, so that the PASSING test `$ echo a; echo b >&2` / `a` failed after the first update
+  and was rewritten to `b` by the second.  `update` now drops spaces and tabs only
+  (`trim_start_matches([' ', '\t'])`, `Update.blankStart`), the guard is gone, and the witness is the regression
+  theorem `C10_run_config_white_space_kept`.
 -/
 namespace Scrut.Props.C10
 open Scrut Scrut.Markdown Scrut.Update
@@ -589,8 +589,9 @@ example : ∃ s', addAll (fun _ => true) (LineParser.State.new false) (number 0 
 /-! ### U4: idempotence of the composition
 
 The full-strength statement (no guard) is false where the open findings
-`C10:not-idempotent-stray-carriage-return`, `C10:not-idempotent-retained-quantified-expectations`,
-`C10:config-leading-white-space-changes-configuration` and the stray-carriage-return witness above say so. -/
+`C10:not-idempotent-stray-carriage-return`, `C10:not-idempotent-retained-quantified-expectations` and the
+stray-carriage-return witness above say so (`C10:config-leading-white-space-changes-configuration` is repaired:
+fix 15b47d2). -/
 
 /-- The second update writes nothing, provided it generates the same texts as the first
 (`C10_idempotent` through the composition; the count of tests is proved to be the same). -/
@@ -614,20 +615,31 @@ theorem C10_flow_blanks_skipped (t : List Char) :
 
 /-- **The configuration text read back**: the fence line `update` writes for a block (at least three backticks, a
 language `LangOK`, the configuration lines `cfg`) is read by the fence recogniser with the configuration text
-`writtenCfg cfg`: none if `cfg` holds white space only, otherwise its text without the leading white space
-(`trim_start`, Unicode `White_Space`). -/
+`writtenCfg cfg`: none if `cfg` holds white space only, otherwise its text without the leading spaces and tabs
+(`trim_start_matches([' ', '\t'])`; until fix 15b47d2: `trim_start`, Unicode `White_Space`). -/
 theorem C10_config_text_read_back (n : Nat) (hn : 3 ≤ n) (lang : Line) (hl : LangOK lang) (cfg : Numbered) :
     ∃ config', extractCodeBlockStart (backticks n ++ lang ++ configSuffix cfg) = .ok (some (backticks n, lang, config')) ∧
       ∀ j, (cfgLines j config').map (·.2) = writtenCfg cfg := by
   obtain ⟨c, h1, _, h3⟩ := fence_line_reread_cfg n hn lang hl cfg
   exact ⟨c, by rw [extractCodeBlockStart_eq, h1], h3⟩
 
-/-- … and where the white space dropped is spaces and tabs, the test configuration parsed from it is the one
-parsed from the original text. -/
+/-- … and the test configuration parsed from it is the one parsed from the original text (the spaces and tabs
+dropped are what YAML skips behind the brace), provided the original text is read at all (no YAML error).
+(Until fix 15b47d2 the guard was "the white space dropped is spaces and tabs".)  The hypothesis matters for a
+text of Unicode white space only, which is written back as no configuration: see the example below; where the
+text is not white space only it is not needed (`inlineCfg_written_nonwhite`). -/
 theorem C10_config_read_back (cfg cfg' : Numbered) (hw : cfg'.map (·.2) = writtenCfg cfg)
-    (hg : trimStart (joinNumbered cfg) = Yaml.skipWs (joinNumbered cfg)) :
+    (hr : (TestRun.inlineCfg (some (cfgOf cfg))).isSome = true) :
     TestRun.inlineCfg (some (cfgOf cfg')) = TestRun.inlineCfg (some (cfgOf cfg)) :=
-  inlineCfg_written hw hg
+  inlineCfg_written hw hr
+
+/-- the hypothesis holds for `{<U+00A0>output_stream: stderr}`, whose text is read back with the no-break space … -/
+example : writtenCfg [(0, cfgNbsp)] = [cfgNbsp] ∧ (TestRun.inlineCfg (some (cfgOf [(0, cfgNbsp)]))).isSome = true := by
+  decide
+
+/-- … and cannot be dropped: `{<U+00A0>}` is a YAML error and is written back as no configuration, which is read -/
+example : writtenCfg [(0, ['\u00a0'])] = [] ∧ TestRun.inlineCfg (some (cfgOf [(0, ['\u00a0'])])) = none ∧
+    TestRun.inlineCfg (some (cfgOf [])) = some {} := inlineCfg_white_unread
 
 /-- **The written document parses** (the hypothesis "IF the written document parses" of
 `C10_run_same_commands_partial`, discharged under the guards of U4). -/
@@ -637,60 +649,83 @@ theorem C10_run_written_parses_partial (isOther : Char → Bool) (hC : AsciiCont
     (hcr : NoStrayCR content) (p : Parsed)
     (hp : parseMarkdown TestRun.parseEnv content = .ok p)
     (hcodes : ∀ r ∈ runs, 0 ≤ r.code ∧ r.code ≤ 255)
-    (hq : QuantFree content results) (hcb : CfgBlankLed content) :
+    (hq : QuantFree content results) :
     ∃ p', parseMarkdown TestRun.parseEnv text = .ok p' ∧ p'.tests.map (·.command) = p.tests.map (·.command) := by
-  obtain ⟨p', hp'⟩ := written_parses hC h hcr hp hcodes hq hcb
+  obtain ⟨p', hp'⟩ := written_parses hC h hcr hp hcodes hq
   exact ⟨p', hp', run_same_commands_final hC h hcr hp hp'⟩
 
-/-- DEVIATION (finding `C10:config-leading-white-space-changes-configuration`; the guard `CfgBlankLed` cannot be
-dropped): the document ```` ```scrut {<U+00A0>output_stream: stderr} ```` / `$ x` / `a` PASSES on the run that
-prints `a` to STDOUT and `b` to STDERR (the key `<U+00A0>output_stream` is unknown and ignored: STDOUT is
-validated); `update` writes it -- the configuration text loses the no-break space --; the written document is read
-with ANOTHER configuration (`output_stream: stderr`), fails on the same run and is written a second time, with
-the expectation `b`.  Every other guard of `C10_run_idempotent_partial` holds. -/
-theorem C10_run_idempotent_configs_fail_on_witness :
+/-- REGRESSION (finding `C10:config-leading-white-space-changes-configuration`, repaired by fix 15b47d2; formerly
+`C10_run_idempotent_configs_fail_on_witness`): the document ```` ```scrut {<U+00A0>output_stream: stderr} ```` /
+`$ x` / `a` PASSES on the run that prints `a` to STDOUT and `b` to STDERR (the key `<U+00A0>output_stream` is
+unknown and ignored: STDOUT is validated).  The configuration suffix `update` writes for it keeps the no-break
+space (spaces and tabs in front of it are dropped), so the document is its own update: nothing is written.  With
+a blank in front of the no-break space the document is written, as the former one: the configuration read back
+is the same (STDOUT), and the second update writes nothing.  On a run that prints `b` to STDOUT the test fails
+and is rewritten to `b` under the SAME fence line, read with the same configuration, and the second update
+writes nothing.  (Until the fix: written as `{output_stream: stderr}`, read with ANOTHER configuration, failed on
+the same run and was written a second time; `configSuffixOld` keeps the record.) -/
+theorem C10_run_config_white_space_kept :
     AllPass docNbsp [runAB] ∧
-    (∀ isOther, updateDocument isOther docNbsp [runAB] = .updated docNbspOut [.ok]) ∧
-    updateDocument ctrl docNbspOut [runAB] = .updated docNbspOut2 [.malformed [.unmatched 0, .unexpected [0]]] ∧
-    docNbspOut2 ≠ docNbspOut ∧
+    configSuffix [(0, cfgNbsp)] = ' ' :: '{' :: (cfgNbsp ++ ['}']) ∧
+    configSuffix [(0, ' ' :: '\t' :: cfgNbsp)] = ' ' :: '{' :: (cfgNbsp ++ ['}']) ∧
+    (∀ isOther, updateDocument isOther docNbsp [runAB] = .unchanged [.ok]) ∧
+    (∀ isOther, updateDocument isOther docSpNbsp [runAB] = .updated docNbsp [.ok]) ∧
+    (docTests docSpNbsp).map (·.map (·.test.cfg.outputStream)) = some [some .stdout] ∧
     (docTests docNbsp).map (·.map (·.test.cfg.outputStream)) = some [some .stdout] ∧
+    updateDocument ctrl docNbsp [runBA] = .updated docNbspB [.malformed [.unmatched 0, .unexpected [0]]] ∧
+    (docTests docNbspB).map (·.map (·.test.cfg.outputStream)) = some [some .stdout] ∧
+    (∀ isOther, updateDocument isOther docNbspB [runBA] = .unchanged [.ok]) :=
+  ⟨allPass_nbsp, nbsp_suffix_kept.1, nbsp_suffix_kept.2, nbsp_unchanged, spNbsp_written,
+    by rw [docTests_spNbsp]; rfl, by rw [docTests_nbsp]; rfl, nbsp_rewritten, by rw [docTests_nbspB]; rfl,
+    nbspB_unchanged⟩
+
+/-- the record of the behaviour until fix 15b47d2: the suffix written with `trim_start()` lost the no-break
+space, and the document written with it is read with ANOTHER configuration (STDERR), fails on the run the original
+passes and is written a second time -/
+theorem C10_run_config_white_space_dropped_before_fix :
+    configSuffixOld [(0, cfgNbsp)] = ' ' :: '{' :: (cfgNbsp.drop 1 ++ ['}']) ∧
     (docTests docNbspOut).map (·.map (·.test.cfg.outputStream)) = some [some .stderr] ∧
-    ¬ CfgBlankLed docNbsp ∧ NoStrayCR docNbsp ∧ QuantFree docNbsp [.ok] ∧
-    (∀ r ∈ [runAB], 0 ≤ r.code ∧ r.code ≤ 255) :=
-  ⟨allPass_nbsp, nbsp_written, nbspOut_written, by decide, by rw [docTests_nbsp]; rfl, by rw [docTests_nbspOut]; rfl,
-    nbsp_not_cfgBlankLed, nbsp_noStrayCR, nbsp_quantFree, sp_codes⟩
+    updateDocument ctrl docNbspOut [runAB] = .updated docNbspOut2 [.malformed [.unmatched 0, .unexpected [0]]] ∧
+    docNbspOut2 ≠ docNbspOut :=
+  ⟨nbsp_suffix_old, by rw [docTests_nbspOut]; rfl, nbspOut_written, by decide⟩
 
 /-- **Idempotence**: updating the updated document with the same runs writes nothing – under the decidable
 guards named in the header, all of them about the ORIGINAL document and the runs: no stray carriage return,
-exit codes 0..255, no retained quantified expectation, and the white space in front of every inline
-configuration is spaces and tabs.  (The hypothesis `SameConfigs` about the written document is discharged; the
-guard `FrontClosed` is dropped: `C10_run_front_closed`; the guards `CmdClosed` / `NoContLike` it had before fixes
-961e96b / cfef990 are dropped.) -/
+exit codes 0..255, no retained quantified expectation.  (The hypothesis `SameConfigs` about the written document
+is discharged; the guard `FrontClosed` is dropped: `C10_run_front_closed`; the guards `CmdClosed` / `NoContLike`
+it had before fixes 961e96b / cfef990 and the guard `CfgBlankLed` it had before fix 15b47d2 are dropped.) -/
 theorem C10_run_idempotent_partial (isOther : Char → Bool) (hC : AsciiContract isOther) (content : List Char)
     (runs : List TestRun.Ran) (text : List Char) (results : List Gen.UpdResult)
     (h : updateDocument isOther content runs = .updated text results)
     (hcr : NoStrayCR content) (p : Parsed)
     (hp : parseMarkdown TestRun.parseEnv content = .ok p)
     (hcodes : ∀ r ∈ runs, 0 ≤ r.code ∧ r.code ≤ 255)
-    (hq : QuantFree content results) (hcb : CfgBlankLed content) :
+    (hq : QuantFree content results) :
     ∃ rs, updateDocument isOther text runs = .unchanged rs :=
-  run_idempotent_final hC h hcr hp hcodes hq hcb
+  run_idempotent_final hC h hcr hp hcodes hq
 
 /-- every hypothesis holds for the ordinary document, so its second update writes nothing -/
 example : ∃ rs, updateDocument ctrl docOrdOut [runNew] = .unchanged rs :=
   C10_run_idempotent_partial ctrl ctrl_contract docOrd [runNew] docOrdOut _ ord_written ord_noStrayCR
-    parsedOrd parse_ord ord_codes ord_quantFree ord_cfgBlankLed
+    parsedOrd parse_ord ord_codes ord_quantFree
 
 /-- … and for a document whose inline configuration starts with a space, which `update` drops
-(```` ```scrut { output_stream: stderr} ```` is written ```` ```scrut {output_stream: stderr} ````): the guard
-`CfgBlankLed` holds, the second update writes nothing -/
-example : CfgBlankLed docSp ∧ ∃ rs, updateDocument ctrl docNbspOut2 [runAB] = .unchanged rs := by
-  refine ⟨sp_cfgBlankLed, ?_⟩
+(```` ```scrut { output_stream: stderr} ```` is written ```` ```scrut {output_stream: stderr} ````): the second
+update writes nothing -/
+example : ∃ rs, updateDocument ctrl docNbspOut2 [runAB] = .unchanged rs := by
   cases hp : parseMarkdown TestRun.parseEnv docSp with
   | error e => have := parse_sp; rw [hp] at this; cases this
   | ok p =>
     exact C10_run_idempotent_partial ctrl ctrl_contract docSp [runAB] docNbspOut2 _ sp_written sp_noStrayCR
-      p hp sp_codes sp_quantFree sp_cfgBlankLed
+      p hp sp_codes sp_quantFree
+
+/-- … and for the document whose inline configuration starts with a no-break space (the former counterexample) -/
+example : ∃ rs, updateDocument ctrl docNbspB [runBA] = .unchanged rs := by
+  cases hp : parseMarkdown TestRun.parseEnv docNbsp with
+  | error e => have := parse_nbsp; rw [hp] at this; cases this
+  | ok p =>
+    exact C10_run_idempotent_partial ctrl ctrl_contract docNbsp [runBA] docNbspB _ nbsp_rewritten nbsp_noStrayCR
+      p hp nbsp_codes nbsp_quantFree
 
 end Integrated
 
